@@ -115,7 +115,20 @@ pub fn check(bytes: &[u8], _ctx: &Ctx) -> Verdict {
                         min_max = min_max.min(v.iter().copied().fold(0.0, f64::max));
                     }
                 }
-                let h = min_max * [0.0, 0.3, 0.9][s.below(3)];
+                let h = match s.below(5) {
+                    k @ 0..=2 => min_max * [0.0, 0.3, 0.9][k],
+                    _ => {
+                        // exactly one of the profile's probabilities (the boundary of "exceeds")
+                        let mut ps: Vec<f64> = prof.iter().flat_map(|pl| pl.values().flat_map(|v| v.iter().copied())).filter(|p| *p > 0.0 && *p < min_max).collect();
+                        ps.sort_by(|a, b| a.partial_cmp(b).unwrap());
+                        if ps.is_empty() {
+                            0.0
+                        } else {
+                            labels.push("op-truncate-at-a-probability");
+                            ps[s.below(ps.len().min(256))]
+                        }
+                    }
+                };
                 cur.truncate(h);
                 labels.push("op-truncate");
                 let mut m = prof.clone();
@@ -218,8 +231,8 @@ pub fn prop() -> Prop {
         describe,
         rule: "small generated games x a profile (injected with exact zeros / pure / random, or solver output of each method at T in {0,1,5}) x an operation sequence of up to 5 ops from {truncate, re-import, re-import permuted, clone}; after every step the named view is read with ExactSizeIterator::len() queried before every next() and compared with the harness's infoset table and a model profile. Non-trivial = the profile has a zero-probability action and the game has both a multi-action and a single-action infoset; distinct by (tree, final profile).",
         max_len: 700,
-        cases_quick: 30_000,
-        cases_thorough: 1_000_000,
+        cases_quick: 1_000_000,
+        cases_thorough: 15_000_000,
         assumptions: &["probabilities compared within 4 ulp; sums within 1e-9"],
         post: None,
         watchdog_s: 60,
